@@ -810,6 +810,9 @@ def is_integer_form(v, depth=0):
     return True
 
 
+_NP_COMPARE = {"equal": "eq", "not_equal": "ne", "greater": "gt", "greater_equal": "ge", "less": "lt", "less_equal": "le"}
+
+
 def mk_fn(name, args, kwargs=()):
     args = list(args)
     kwargs = sorted(kwargs, key=lambda kv: kv[0])
@@ -834,6 +837,8 @@ def mk_fn(name, args, kwargs=()):
     if name in ("fft", "ifft") and kwargs:
         # the transform acts on the last axis unless told otherwise: an explicit axis=-1 says nothing new
         kwargs = [(k, v) for k, v in kwargs if not (k == "axis" and isinstance(v, Form) and v.rational() == -1)]
+    if name in _NP_COMPARE and len(args) == 2 and not kwargs:
+        name = _NP_COMPARE[name]                      # np.equal(a, b) is a == b, np.less(a, b) is a < b, ...
     if name in ("lt", "le") and len(args) == 2 and not kwargs:
         name, args = ("gt" if name == "lt" else "ge"), [args[1], args[0]]
     elif name in ("eq", "ne") and len(args) == 2 and not kwargs:
